@@ -244,7 +244,8 @@ def tlc(ctx, module, cfg, workers=1, heap='3g', timeout=1800, env=None, extra=()
     m = re.search(r'depth of the complete state graph search is (\d+)', out)
     if m:
         res['depth'] = int(m.group(1))
-    for m in re.finditer(r'<<"REJECT", (\d+), "([^"]*)"(?:, ([^>]*))?>>', out):
+    # TLC pretty-prints wide tuples over several lines: match across whitespace/newlines
+    for m in re.finditer(r'<<\s*"REJECT",\s*(\d+),\s*"([^"]*)"\s*(?:,[^>]*)?>>', out, re.S):
         res['rejects'].append((int(m.group(1)), m.group(2)))
     res['invariant_violations'] = re.findall(r'Invariant (\S+) is violated', out)
     res['invariant_violations'] += re.findall(r'Action property (\S+) is violated', out)
